@@ -156,6 +156,7 @@ func genC07(seed uint64, run int, tier string) Scenario {
 	sc.F.CloseMode = pick(r, "eof", "eof", "err", "stuck")
 	sc.F.DropAfterEOF = r.IntN(2) == 0
 	sc.F.WriteFailAfterLoss = r.IntN(2) == 0
+	sc.F.CloseReturnsErr = r.IntN(5) == 0
 	sc.Driver = pick(r, "generic", "generic", "network")
 	if r.IntN(3) == 0 {
 		// an on-close hook that talks to the device, as every platform definition has
